@@ -1760,7 +1760,7 @@ uint32_t bufr_cvt_fval_to_i32(int code, BufrValueEncoding *be, float fval)
    uint32_t  ival, rem;
    uint64_t  maxval;
    uint64_t  missing;
-   float     val_pow;
+   double    val_pow;
    int       ival_pow;
    double    val1;
    float     fmin, fmax;
@@ -1931,7 +1931,7 @@ double bufr_cvt_i64_to_dval(BufrValueEncoding *be, int64_t ival)
 float bufr_cvt_i32_to_fval(BufrValueEncoding *be, uint32_t ival)
    {
    float     fval;
-   float     val_pow;
+   double    val_pow;
    uint32_t  missing;
 
    missing = bufr_missing_ivalue( be->nbits );
